@@ -5,6 +5,7 @@ import (
 	"encoding/json"
 	"fmt"
 	"os"
+	"os/exec"
 	"path/filepath"
 	"sort"
 	"strings"
@@ -239,3 +240,98 @@ func firstLines(s string, n int) string {
 
 // TimeLeft reports whether the internal deadline (if any) has not passed.
 func (r *Report) TimeLeft() bool { return r.Deadline.IsZero() || time.Now().Before(r.Deadline) }
+
+// Merge folds a child report (one scenario run in its own process) into r.
+func (r *Report) Merge(c *Report) {
+	r.Runs = append(r.Runs, c.Runs...)
+	r.Viols = append(r.Viols, c.Viols...)
+	r.Evaluations += c.Evaluations
+	r.DistinctNontrivial += c.DistinctNontrivial
+	r.States += c.States
+	r.Transitions += c.Transitions
+	r.TracesValidated += c.TracesValidated
+	if !c.Exhaustive {
+		r.Exhaustive = false
+	}
+	r.Caps = append(r.Caps, c.Caps...)
+	r.Vacuous = append(r.Vacuous, c.Vacuous...)
+	r.Notes = append(r.Notes, c.Notes...)
+	for k, v := range c.Counters {
+		r.Counters[k] += v
+	}
+	for _, s := range c.Samples {
+		if len(r.Samples) < 6 {
+			r.Samples = append(r.Samples, s)
+		}
+	}
+	if c.MachineryError != "" && r.MachineryError == "" {
+		r.MachineryError = c.MachineryError
+	}
+	if c.Rule != "" && r.Rule == "" {
+		r.Rule = c.Rule
+	}
+}
+
+// RunScenarios runs each named scenario in a child process (bounded parallelism) and merges the results.
+// In a child process (VHARNESS_CHILD set) it runs just that scenario in-process.
+func (r *Report) RunScenarios(names []string, run func(r *Report, name string)) {
+	if child := os.Getenv("VHARNESS_CHILD"); child != "" {
+		run(r, child)
+		return
+	}
+	self, err := os.Executable()
+	if err != nil || len(names) <= 1 || os.Getenv("VHARNESS_SERIAL") != "" {
+		for _, n := range names {
+			run(r, n)
+		}
+		return
+	}
+	par := numWorkers()
+	sem := make(chan struct{}, par)
+	results := make([]*Report, len(names))
+	errs := make([]string, len(names))
+	done := make(chan int, len(names))
+	left := time.Until(r.Deadline)
+	for i, n := range names {
+		i, n := i, n
+		go func() {
+			sem <- struct{}{}
+			defer func() { <-sem; done <- i }()
+			tmp, _ := os.CreateTemp("", "vharness-child-*.json")
+			tmp.Close()
+			defer os.Remove(tmp.Name())
+			args := []string{r.Property, "-tier", r.Tier, "-seed", fmt.Sprint(r.Seed), "-childout", tmp.Name()}
+			if !r.Deadline.IsZero() {
+				args = append(args, "-budget", fmt.Sprint(int(left.Seconds())))
+			}
+			cmd := exec.Command(self, args...)
+			cmd.Env = append(os.Environ(), "VHARNESS_CHILD="+n, "GOMAXPROCS=2")
+			out, err := cmd.CombinedOutput()
+			b, rerr := os.ReadFile(tmp.Name())
+			var cr Report
+			if rerr != nil || json.Unmarshal(b, &cr) != nil {
+				errs[i] = fmt.Sprintf("scenario %s: child failed (%v): %s", n, err, firstLines(string(out), 12))
+				return
+			}
+			results[i] = &cr
+		}()
+	}
+	for range names {
+		<-done
+	}
+	for i := range names {
+		if errs[i] != "" {
+			r.MachineryError = errs[i]
+			continue
+		}
+		if results[i] != nil {
+			r.Merge(results[i])
+		}
+	}
+}
+
+// WriteChild dumps the report for the parent process.
+func (r *Report) WriteChild(path string) {
+	b, _ := json.Marshal(r)
+	os.WriteFile(path, b, 0o644)
+}
